@@ -10,7 +10,7 @@ AddFact == /\ phase = "build" /\ Cardinality(facts) < MaxFacts
                 facts' = facts \cup {f}
            /\ UNCHANGED <<cfg, phase>>
 Formats == {"plain", "gzip", "zstd"}
-Empties == {<<>>, <<<<"e", 1>>>>, <<<<"z0", 0>>, <<"e2", 2>>>>}
+Empties == {<<>>, <<<<"e", 1>>>>, <<<<"z0", 0>>, <<"e2", 2>>>>, <<<<"p", 3>>, <<"q", 1>>>>}
 Finish == /\ phase = "build"
           /\ \E d \in (IF Randomized THEN {RandomElement({x \in BOOLEAN : Cardinality(facts) >= 0})} ELSE {TRUE}),
                 fm \in (IF Randomized THEN {RandomElement({x \in Formats : Cardinality(facts) >= 0})} ELSE {"plain"}),
